@@ -216,6 +216,322 @@ def image_rect(chk, f):
     chk.floor("R-IMAGE-RECT", "Image constructions", n, 1)
 
 
+# ===================================================================================================== R-WORKLIST
+def _mentions(e, pred, depth=0):
+    if depth > 40 or not isinstance(e, (tuple, list)):
+        return False
+    if isinstance(e, tuple) and e and pred(e):
+        return True
+    return any(_mentions(x, pred, depth + 1) for x in e if isinstance(x, (tuple, list)))
+
+
+def _walk(e, depth=0):
+    if depth > 40 or not isinstance(e, (tuple, list)):
+        return
+    if isinstance(e, tuple):
+        yield e
+    for x in e:
+        if isinstance(x, (tuple, list)):
+            yield from _walk(x, depth + 1)
+
+
+def _cpath(t):
+    return t["callee"].get("resolved") or t["callee"].get("path") or ""
+
+
+def _vec_local(eb, op):
+    """`&mut V` / `&V` of a plain local vector -> V"""
+    e = eb.operand(op)
+    if e[0] == "ref" and e[1][0] == "var":
+        return e[1][1]
+    return None
+
+
+class _WL:
+    """reads and unconditional writes of small methods, relative to their parameters (own body plus callees that get a parameter
+    reference passed on, three levels deep)"""
+
+    def __init__(self, f):
+        from analysis.cg import CallGraph
+        from analysis.effects import Effects, _names
+        self.f = f
+        self.eff = Effects(f, CallGraph(f))
+        self.names = _names
+        self._reads = {}
+        self._writes = {}
+
+    def _path(self, b, pj):
+        if "*" not in [x for x in pj.get("p", []) if x == "*"]:
+            return None
+        return self.eff._place_path(b, pj)
+
+    def _ops(self, b):
+        """every place read in b (operands of statements and terminators, borrowed places)"""
+        def rv_places(rv):
+            k = rv["k"]
+            if k in ("use", "un", "cast", "repeat"):
+                yield rv["a"]
+            elif k == "bin":
+                yield rv["a"]
+                yield rv["b"]
+            elif k in ("ref", "rawptr", "discr", "len"):
+                yield {"copy": rv["p"]}
+            elif k == "agg":
+                yield from rv["ops"]
+        for bi, k, s in b.stmts():
+            if s["k"] == "assign":
+                yield from rv_places(s["rv"])
+        for bi, t in b.terms():
+            if t["k"] == "call":
+                yield from t["args"]
+            elif t["k"] == "switch":
+                yield t["discr"]
+
+    def reads(self, bid, depth=0):
+        if bid in self._reads:
+            return self._reads[bid]
+        self._reads[bid] = set()
+        b = self.f.bodies[bid]
+        out = set()
+        for op in self._ops(b):
+            pj = op.get("copy") or op.get("move")
+            if pj is None:
+                continue
+            pp = self._path(b, pj)
+            if pp is not None and pp[0]:
+                out.add(pp)
+        if depth < 3:
+            for bi, t in b.calls():
+                cands = [c for c in self.eff.ip.callee_ids(b, t) if c in self.f.bodies]
+                if len(cands) != 1:
+                    continue
+                for ai, a in enumerate(t["args"]):
+                    rp = self.eff._ref_path(b, a)
+                    if rp is None or not rp[0]:
+                        continue
+                    for (cp, path) in self.reads(cands[0], depth + 1):
+                        if cp == ai + 1:
+                            out.add((rp[0], (rp[1] + path)[:6]))
+        self._reads[bid] = out
+        return out
+
+    def _bounds_only(self, b, eb, block, field):
+        """the block runs whenever the body does, except for guards that compare against the length of the written container"""
+        for d in b.control_deps(block):
+            t = b.blocks[d]["term"]
+            if t["k"] != "switch":
+                continue
+            e = eb.operand(t["discr"])
+            if not _mentions(e, lambda x: x[0] == "len" and field in show(x)):
+                return False
+        return True
+
+    def must_writes(self, bid, depth=0):
+        """{(param, path): value parameter or None}: stores the body performs on every run (bounds guards on the container aside)"""
+        if bid in self._writes:
+            return self._writes[bid]
+        self._writes[bid] = {}
+        b = self.f.bodies[bid]
+        eb = ExprBuilder(b)
+        out = {}
+        for bi, k, s in b.stmts():
+            if s["k"] != "assign":
+                continue
+            pp = self._path(b, s["p"])
+            if pp is None or not pp[0] or not pp[1]:
+                continue
+            if not self._bounds_only(b, eb, bi, pp[1][-1]):
+                continue
+            val = None
+            rv = s["rv"]
+            if rv["k"] == "use":
+                e = eb.operand(rv["a"])
+                if e[0] == "var" and 1 <= e[1] <= b.argc:
+                    val = e[1]
+            out[pp] = val
+        if depth < 3:
+            for bi, t in b.calls():
+                cands = [c for c in self.eff.ip.callee_ids(b, t) if c in self.f.bodies]
+                if len(cands) != 1:
+                    continue
+                sub = self.must_writes(cands[0], depth + 1)
+                for (cp, path), cval in sub.items():
+                    if cp < 1 or cp > len(t["args"]):
+                        continue
+                    rp = self.eff._ref_path(b, t["args"][cp - 1])
+                    if rp is None or not rp[0]:
+                        continue
+                    full = (rp[0], (rp[1] + path)[:6])
+                    if not full[1] or not self._bounds_only(b, eb, bi, full[1][-1]):
+                        continue
+                    val = None
+                    if cval is not None and cval <= len(t["args"]):
+                        e = eb.operand(t["args"][cval - 1])
+                        if e[0] == "var" and 1 <= e[1] <= b.argc:
+                            val = e[1]
+                    out.setdefault(full, val)
+        self._writes[bid] = out
+        return out
+
+
+def worklist(chk, f):
+    """R-WORKLIST.  A loop that pops its work from a vector and pushes new work onto the same vector terminates only if
+    something is marked as done before new work is pushed.  For every such loop in the RIP / IGS emulation: the pushes are all
+    guarded by one test of a 'done' state (a pixel read through a getter of self, or a local container), and on every path from
+    that test through a push back to the pop the state is changed unconditionally - by a setter that stores, on every run, into
+    what the getter reads (and a value that the code has compared unequal to the one the test looks for), or by an insertion
+    into the container the test consults.  Decided: the marking discipline.  Not decided: that the mark covers the popped item."""
+    wl = None
+    n = 0
+    for bid, b in sorted(f.bodies.items()):
+        if b.kind not in ("fn", "method", "closure") or not (b.file.startswith("src/parsers/rip") or b.file.startswith("src/parsers/igs")):
+            continue
+        pops = [(bi, t) for bi, t in b.calls() if _cpath(t).startswith("std::vec::Vec::<T") and _cpath(t).endswith("::pop")]
+        if not pops:
+            continue
+        eb = ExprBuilder(b)
+        for hd in sorted(b.loop_heads()):
+            N = b.natural_loop(hd)
+            for pbi, pt in pops:
+                if pbi not in N:
+                    continue
+                V = _vec_local(eb, pt["args"][0])
+                if V is None:
+                    continue
+                # the loop ends when the vector is empty: the discriminant of the pop result leaves the loop
+                drives = False
+                for d in N:
+                    t = b.blocks[d]["term"]
+                    if t["k"] == "switch" and any(x not in N for x in b.succ[d]):
+                        e = eb.operand(t["discr"])
+                        if _mentions(e, lambda x: x[0] == "call" and x[1].endswith("::pop") and x[2] and x[2][0] == ("ref", ("var", V, b.lname(V)))):
+                            drives = True
+                if not drives:
+                    continue
+                pushes = [(bi, t) for bi, t in b.calls() if bi in N and _cpath(t).startswith("std::vec::Vec::<T")
+                          and _cpath(t).split("::")[-1] in ("push", "extend", "insert", "append", "extend_from_slice") and _vec_local(eb, t["args"][0]) == V]
+                if not pushes:
+                    continue
+                n += 1
+                if wl is None:
+                    wl = _WL(f)
+                why = _worklist_ok(f, wl, b, eb, hd, N, V, pushes)
+                chk.obligation(why is None)
+                if why is not None:
+                    chk.finding("%s|worklist" % b.short(), rule="R-WORKLIST", where="%s:%s" % (b.file, pt.get("line")), fn=b.short(),
+                                what="the loop pops its work from `%s` and pushes new work onto it, but %s: an item that is not marked as done is pushed again by its neighbours for ever" % (b.lname(V), why))
+    chk.floor("R-WORKLIST", "work-list loops in the RIP / IGS emulation", n, 2)
+
+
+def _worklist_ok(f, wl, b, eb, hd, N, V, pushes):
+    push_blocks = {bi for bi, _ in pushes}
+    common = None
+    for pb in push_blocks:
+        deps = {d for d in b.control_deps(pb) if d in N}
+        common = deps if common is None else common & deps
+    reasons = []
+    for G in sorted(common or (), reverse=True):
+        t = b.blocks[G]["term"]
+        if t["k"] != "switch":
+            continue
+        e = eb.operand(t["discr"])
+        if _mentions(e, lambda x: x[0] == "call" and x[1].endswith("::pop")) and not _mentions(e, lambda x: x[0] == "call" and not x[1].endswith("::pop") and not x[1].startswith(("core::", "std::"))):
+            continue        # the emptiness test / tests of the popped item alone
+        marks = set()
+        # form B: the test consults a local container other than the work list
+        conts = set()
+        for x in _walk(e):
+            if x[0] == "var" and x[1] != V and x[1] > b.argc:
+                ty = f.types[b.locals[x[1]]["t"]]
+                if ty["k"] == "adt" and any(ty["s"].startswith(p) for p in ("std::vec::Vec<", "std::collections::", "alloc::vec::Vec<")):
+                    conts.add(x[1])
+        for S in conts:
+            for bi in N:
+                for s in b.blocks[bi]["stmts"]:
+                    if s["k"] == "assign" and s["p"]["l"] == S and s["p"].get("p"):
+                        marks.add(bi)
+            for bi, ct in b.calls():
+                if bi not in N or bi == G:
+                    continue
+                nm = _cpath(ct).split("::")[-1]
+                if nm in ("push", "insert", "extend", "push_back", "push_front", "append", "extend_from_slice", "resize") and ct["args"] \
+                        and _mentions(eb.operand(ct["args"][0]), lambda x: x[0] == "var" and x[1] == S):
+                    marks.add(bi)
+        value_ok = bool(marks)
+        # form A: the test reads state of self through a getter; a setter must store into what the getter reads
+        getters = [x for x in _walk(e) if x[0] == "call" and x[1] in f.bodies and x[2] and x[2][0][0] == "ref"]
+        for g in getters:
+            recv = g[2][0]
+            rd = {pth for (cp, pth) in wl.reads(g[1]) if cp == 1}
+            for bi, ct in b.calls():
+                if bi not in N:
+                    continue
+                cands = [c for c in wl.eff.ip.callee_ids(b, ct) if c in f.bodies]
+                if len(cands) != 1 or not ct["args"] or eb.operand(ct["args"][0]) != recv:
+                    continue
+                mw = wl.must_writes(cands[0])
+                hit = [(pth, val) for (cp, pth), val in mw.items() if cp == 1 and pth in rd]
+                if not hit:
+                    continue
+                # the stored value is one the code has compared unequal to the value the test looks for
+                ok = False
+                for pth, val in hit:
+                    if val is None or val > len(ct["args"]):
+                        continue
+                    Y = eb.operand(ct["args"][val - 1])
+                    others = []
+                    if e[0] == "bin" and e[1] in ("Eq", "Ne"):
+                        others = [o for o in (e[2], e[3]) if not _mentions(o, lambda x: x is g or x == g)]
+                    for X in others:
+                        for D in range(b.nblocks):
+                            dt = b.blocks[D]["term"]
+                            if dt["k"] != "switch" or D in N or not b.dominates(D, hd):
+                                continue
+                            de = eb.operand(dt["discr"])
+                            if de[0] == "bin" and de[1] in ("Eq", "Ne") and ((de[2] == X and de[3] == Y) or (de[2] == Y and de[3] == X)):
+                                # the edge taken when X == Y must not lead into the loop
+                                eq_val = 1 if de[1] == "Eq" else 0
+                                tgt = dict((v, tb) for v, tb in dt["targets"]).get(eq_val, dt.get("otherwise"))
+                                if tgt is not None and hd not in b.reachable_from(tgt):
+                                    ok = True
+                if ok:
+                    marks.add(bi)
+                    value_ok = True
+                else:
+                    reasons.append("`%s` stores a value that is not known to differ from the one `%s` is compared with" % (cands[0].split("::")[-1], g[1].split("::")[-1]))
+        if not marks or not value_ok:
+            continue
+        # every path from the test through a push back to the head passes a mark
+        start = [x for x in b.succ[G] if x in N]
+        seen = set()
+        st = [x for x in start if x not in marks]
+        while st:
+            x = st.pop()
+            if x in seen or x not in N or x in marks:
+                continue
+            seen.add(x)
+            if x != hd:
+                st.extend(b.succ[x])
+        bad = None
+        for pb in sorted(push_blocks & seen):
+            s2, st = set(), list(b.succ[pb])
+            while st:
+                x = st.pop()
+                if x == hd:
+                    bad = pb
+                    break
+                if x in s2 or x not in N or x in marks:
+                    continue
+                s2.add(x)
+                st.extend(b.succ[x])
+            if bad is not None:
+                break
+        if bad is None:
+            return None
+        reasons.append("a push (block %d) lies on a path from the test back to the pop that does not pass the marking write" % bad)
+    return reasons[0] if reasons else "no test of a 'done' state that an unconditional write on the same path changes guards its pushes"
+
+
 def run(chk):
     f = F.load()
     roots = R.gfx_roots(f)
@@ -224,4 +540,6 @@ def run(chk):
     rip_cursor(chk, f)
     chk.rules.append("R-IMAGE-RECT")
     image_rect(chk, f)
+    chk.rules.append("R-WORKLIST")
+    worklist(chk, f)
     return P.finish(chk, reviewed, "No undischarged panic origin is reachable from the RIPscrip / IGS entry points; the RIP parameter cursor is reset whenever a command starts; a saved image holds width x height bytes.")
